@@ -152,6 +152,27 @@ Theorem C19_legacy_carries_one_token_partial : forall db r remote r' t0 rest,
 Proof. exact legacy_carries_one_token. Qed.
 Print Assumptions C19_legacy_carries_one_token_partial.
 
+(* Whatever the request carries: once a token is found, the forwarded Authorization header is the
+   outcome for that first token, the forwarded query has no api_token, and form body and cookie are
+   the incoming ones -- an unsalted secret can leave only through the form body or the cookie (this
+   is the trigger predicate of F6b) *)
+Theorem C19_legacy_leak_confined_to_form_and_cookie : forall db r remote r' t0 rest,
+  legacy db r remote = LFwd r' -> load_tokens r = t0 :: rest ->
+  (exists out, l_auth r' = ABearer out /\
+     (salt_token t0 remote = Salted out \/
+      ((salt_token t0 remote = ErrObsolete \/ salt_token t0 remote = ErrFormat) /\
+       (out = t0 \/ exists user auth_uuid secret, db t0 = DbFound user auth_uuid secret /\
+                                                 salt_token ("v2/" ++ auth_uuid ++ "/" ++ secret) remote = Salted out)))) /\
+  values "api_token" (l_query r') = [] /\ l_form r' = l_form r /\ l_cookie r' = l_cookie r.
+Proof. exact legacy_leak_confined. Qed.
+Print Assumptions C19_legacy_leak_confined_to_form_and_cookie.
+
+(* no token in header, query or cookie: the request is forwarded as it came, form body included *)
+Theorem C19_legacy_no_token_found_forwards_unchanged : forall db r remote,
+  load_tokens r = [] -> l_ctype r <> "application/x-www-form-encoded" -> legacy db r remote = LFwd r.
+Proof. exact legacy_no_token_found. Qed.
+Print Assumptions C19_legacy_no_token_found_forwards_unchanged.
+
 (* The evaluator: boolean specification = Prop-level statements; digest table transparent; the model
    satisfies the specification; known-finding bits only inside the F6b trigger. *)
 Theorem C19_spec_salt_reflects : forall token remote o,
